@@ -146,13 +146,13 @@ h2!(c11_items_2_1, construct_items, 2, 1, 6);
 h2!(c11_items_1_2, construct_items, 1, 2, 6);
 h2!(c11_items_2_2, construct_items, 2, 2, 7);
 
-h3!(c12_counts_1_1_1, merge_counts, 1, 1, 1, 5);
-h3!(c12_counts_1_0_1, merge_counts, 1, 0, 1, 5);
-h3!(c12_counts_0_1_0, merge_counts, 0, 1, 0, 5);
-h3!(c12_counts_2_1_2, merge_counts, 2, 1, 2, 7);
-h3!(c12_counts_1_2_1, merge_counts, 1, 2, 1, 7);
-h3!(c12_counts_2_2_2, merge_counts, 2, 2, 2, 7);
-h3!(c12_items_1_1_1, merge_items, 1, 1, 1, 5);
-h3!(c12_items_1_0_1, merge_items, 1, 0, 1, 5);
-h3!(c12_items_0_1_0, merge_items, 0, 1, 0, 5);
-h3!(c12_items_2_1_2, merge_items, 2, 1, 2, 7);
+h3!(c12_counts_1_1_1, merge_counts, 1, 1, 1, 8);
+h3!(c12_counts_1_0_1, merge_counts, 1, 0, 1, 8);
+h3!(c12_counts_0_1_0, merge_counts, 0, 1, 0, 8);
+h3!(c12_counts_2_1_2, merge_counts, 2, 1, 2, 10);
+h3!(c12_counts_1_2_1, merge_counts, 1, 2, 1, 10);
+h3!(c12_counts_2_2_2, merge_counts, 2, 2, 2, 10);
+h3!(c12_items_1_1_1, merge_items, 1, 1, 1, 8);
+h3!(c12_items_1_0_1, merge_items, 1, 0, 1, 8);
+h3!(c12_items_0_1_0, merge_items, 0, 1, 0, 8);
+h3!(c12_items_2_1_2, merge_items, 2, 1, 2, 10);
